@@ -9,7 +9,7 @@
   Full statement (goal): `∀ ops, (ops.foldl step init).inv` for the whole mutating API, and
   `isRemoved` monotone along every history.
 -/
-import XotModel.Lemmas.FinvReach
+import XotModel.Lemmas.FinvOps6
 
 namespace XotModel.Props
 open XotModel
@@ -244,5 +244,63 @@ example : let ops : List Op := [.newElement 1, .newText ['x'], .newElement 2, .n
     (∀ o ∈ ops, o.core = true) ∧ (Forest.init.run ops).inv = true ∧
     (Forest.init.run ops).isRemoved 2 = true ∧ (Forest.init.run ops).isRemoved 3 = true ∧
     (Forest.init.run ops).allHandles = [0, 4, 1] := by decide
+
+/-! ### `replace`, `element_wrap`, `element_unwrap`, `clone_node`: partial results
+
+These four take a node out *without* consolidating its former neighbours (`remove_subtree`,
+raw `detach`, indextree `remove`) and repair the text adjacency in a later step, so their
+intermediate states do not satisfy the invariant in strict mode.  The full statements
+(`C04_replaceStatement` …) are NOT proved; proved is the part where no such intermediate defect
+arises (`Forest.textGap = false`: in particular whenever consolidation has ever been off), the
+handle part for all cases (`C04_step_le` above), and the replay loop of `clone_node`. -/
+
+def C04_replaceStatement : Prop := ∀ (f : Forest) (a b : Nat), f.Inv → (f.replace a b).1.Inv
+def C04_elementWrapStatement : Prop := ∀ (f : Forest) (n name : Nat), f.Inv → (f.elementWrap n name).1.Inv
+def C04_elementUnwrapStatement : Prop := ∀ (f : Forest) (n : Nat), f.Inv → (f.elementUnwrap n).1.Inv
+def C04_cloneNodeStatement : Prop := ∀ (f : Forest) (n : Nat), f.Inv → (f.cloneNode n).1.Inv
+
+/-- `replace` when the replaced node does not sit between two text nodes in strict mode. -/
+theorem C04_replace_partial (f : Forest) (a b : Nat) (h : f.Inv) (hg : f.textGap a = false) :
+    (f.replace a b).1.Inv := Forest.replace_inv_of_noGap h a b hg
+
+/-- `element_wrap` when the wrapped node does not sit between two text nodes in strict mode. -/
+theorem C04_elementWrap_partial (f : Forest) (node name : Nat) (h : f.Inv) (hg : f.textGap node = false) :
+    (f.elementWrap node name).1.Inv := Forest.elementWrap_inv_of_noGap h node name hg
+
+/-- The guard is vacuous once consolidation has ever been off. -/
+theorem C04_textGap_off (f : Forest) (a : Nat) (h : f.everOff = true) : f.textGap a = false := by
+  unfold Forest.textGap; cases f.ctx? a <;> simp [h]
+
+/-- `element_unwrap`: the refusals and the childless case (which is `remove`). -/
+theorem C04_elementUnwrap_partial (f : Forest) (node : Nat) (h : f.Inv)
+    (hc : f.isElement node = false ∨ f.firstChild node = none ∨
+      (f.parent? node = none ∧ (f.firstChild node).isSome = true)) :
+    (f.elementUnwrap node).1.Inv := by
+  rcases hc with hc | hc | hc
+  · exact Forest.elementUnwrap_refused_inv h node (Or.inl hc)
+  · exact Forest.elementUnwrap_inv_of_childless h node hc
+  · exact Forest.elementUnwrap_refused_inv h node (Or.inr hc)
+
+/-- The replay loop of `clone_node` (`new_node` + `any_append` per source node) preserves the
+    invariant; `clone_node` of a document or of a leaf node does; for an element the state before
+    the final indextree `remove` of the temporary top does. -/
+theorem C04_cloneInto (f f' : Forest) (current : Nat) (t : HTree) (h : f.Inv)
+    (hc : Forest.cloneInto f current t = some f') : f'.Inv := Forest.cloneInto_inv current t f f' h hc
+
+theorem C04_cloneKids (f f' : Forest) (current : Nat) (ks : List HTree) (h : f.Inv)
+    (hc : Forest.cloneKids f current ks = some f') : f'.Inv := Forest.cloneKids_inv current ks f f' h hc
+
+theorem C04_cloneNode_partial (f : Forest) (node : Nat) (h : f.Inv) (hne : f.isElement node = false) :
+    (f.cloneNode node).1.Inv := Forest.cloneNode_inv_of_not_element h node hne
+
+/-- Non-vacuity: a strict forest with a gap (`<a>x<b/>y</a>`, `b` between two texts) and one
+    without; the unproved region is not empty and the model keeps the invariant there on these
+    instances (evaluation, not proof). -/
+def gapForest : Forest := { roots := [.node 0 (.element 1) [.node 1 (.text ['x']) [], .node 2 (.element 2) [], .node 3 (.text ['y']) []], .node 4 (.text ['z']) [], .node 5 (.element 3) []], next := 6 }
+example : gapForest.inv = true ∧ gapForest.textGap 2 = true ∧ gapForest.textGap 1 = false := by decide
+example : (gapForest.replace 2 4).1.inv = true := by decide
+example : (gapForest.replace 2 5).1.inv = true := by decide
+example : (gapForest.replace 1 5).1.inv = true := by decide
+example : (gapForest.elementWrap 2 9).1.inv = true := by decide
 
 end XotModel.Props
